@@ -164,6 +164,15 @@ ExtraCases == <<
   XC(<<Set("tp", TupE(<<At(ArrE(<<I(1), F(5)>>), I(0)), I(2)>>)), Set("r1", IfSet("q", WTup(<<WInt, WInt>>), V("tp"), I(1), I(0))),
        Set("st", StructE(<< <<"a", At(ArrE(<<I(1), F(5)>>), I(0))>> >>)), Set("r2", IfSet("q", StA, V("st"), I(1), I(0))),
        TupE(<<V("r1"), V("r2")>>)>>, T2V(1, 1)),
+  \* a block / branch / arm whose last statement is `()' evaluates to (), whatever ran before
+  XC(<<Set("c", MutE(WInt, I(0))), Set("b1", Block(<<Asg("+=", V("c"), I(5)), Unit>>)),
+       Set("r1", IfSet("q", WVoid, V("b1"), I(1), I(0))),
+       Set("b2", If(Bin(">", Deref(V("c")), I(1)), Block(<<Asg("+=", V("c"), I(1)), Unit>>), Block(<<I(7)>>))),
+       Set("r2", IfSet("q", WVoid, V("b2"), I(1), I(0))), TupE(<<V("r1"), V("r2")>>)>>, T2V(1, 1)),
+  XC(<<Set("c", MutE(WInt, I(0))), Set("b3", Match(H(2), <<ArmVal(<<I(2)>>, Block(<<Asg("+=", V("c"), I(3)), Unit>>)), ArmOther(Block(<<I(7)>>))>>)),
+       Set("r1", IfSet("q", WVoid, V("b3"), I(1), I(0))),
+       Set("b4", IfSet("n", WInt, H(2), Block(<<Asg("+=", V("c"), V("n")), Unit>>), Block(<<I(7)>>))),
+       Set("r2", IfSet("q", WInt, V("b4"), I(0), Deref(V("c")))), TupE(<<V("r1"), V("r2")>>)>>, T2V(1, 5)),
   \* guards
   XC(<<Set("x", H(0)), Set("r1", Guard("x", 3)), Set("x", H(2)), Set("r2", Guard("x", 3)), TupE(<<V("r1"), V("r2")>>)>>, T2V(3, 5)),
   XC(<<Set("x", H(0)), Set("k", MutE(WInt, I(7))),
